@@ -2,6 +2,7 @@ package mw
 
 import (
 	"fmt"
+	"hash/fnv"
 	"strings"
 
 	"verif/simenv"
@@ -101,7 +102,7 @@ func (s *Spec) respPlanFor(r *simfw.RNG, op string, mk string) respPlan {
 	if r.Chance(1, 14) {
 		// 101 Switching Protocols is a final status, unlike the other 1xx codes
 		if d.Default {
-			return respPlan{101, nil, "", "invalid"} // the default entry wants a JSON body
+			return respPlan{101, nil, "", "unknown"} // the default entry wants a JSON body; whether a bodiless status must carry one is a verdict question, not C14's
 		}
 		return respPlan{101, nil, "", "valid"}
 	}
@@ -133,7 +134,7 @@ func (s *Spec) respPlanFor(r *simfw.RNG, op string, mk string) respPlan {
 		}
 		// 204 is not declared for POST: passes unless a default entry catches it
 		if d.Default {
-			return respPlan{204, nil, "", "invalid"} // default entry wants a JSON body
+			return respPlan{204, nil, "", "unknown"} // default entry wants a JSON body (same remark as for 101)
 		}
 		return respPlan{204, nil, "", "valid"}
 	case 7, 8:
@@ -300,7 +301,10 @@ func (s *Spec) script(r *simfw.RNG, op string, mk string) (simenv.Script, string
 func (s *Spec) request(r *simfw.RNG, i int, faultOK bool) Req {
 	d := s.Doc
 	mk := fmt.Sprintf("%s-%d", s.Marker, i)
-	rq := "RQ" + strings.TrimPrefix(mk, "MK") // request bytes carry their own marker: error pages may quote the request
+	// request bytes carry their own marker, sharing no substring with the handler's: error pages may quote the request
+	hm := fnv.New64a()
+	hm.Write([]byte(s.Marker))
+	rq := fmt.Sprintf("RQ%012x-%d", hm.Sum64()&0xffffffffffff, i)
 	q := Req{}
 	base := d.Base()
 	key := [2]string{"X-Key", "k"}
